@@ -62,6 +62,12 @@ func newSolver(kind string, timeoutMs int) (*solver, error) {
 		return nil, err
 	}
 	s := &solver{name: kind, cmd: cmd, in: in, out: bufio.NewReaderSize(outp, 1<<16), tmoMs: timeoutMs}
+	if dir := os.Getenv("GOSX_SOLVERLOG"); dir != "" {
+		// debugging aid: every solver process writes what it is sent to <dir>/<pid>.smt2
+		if f, err := os.Create(fmt.Sprintf("%s/%d.smt2", dir, cmd.Process.Pid)); err == nil {
+			s.log = f
+		}
+	}
 	s.send("(set-option :produce-models true)\n")
 	if kind == "cvc5" {
 		s.send("(set-logic QF_BV)\n")
